@@ -13,6 +13,8 @@ import Pixman.Lemmas.Combine
 import Pixman.Props.C04Core
 import Pixman.Props.BridgesImage
 import Pixman.Props.BridgesExtent
+import Pixman.Props.BridgesGlyph
+import Pixman.Props.BridgesRegion
 import Pixman.Lemmas.CSemFacts
 /-!
   Bridges: regenerated C functions (`Pixman.Gen.CFuncs`, rewritten from /repo's working tree on every
